@@ -288,8 +288,14 @@ impl Doc {
     }
 
     /// Closes the document.
+    ///
+    /// A handle (and its clones, which share its state) stands for one open request: closing it
+    /// releases that one handle, closing it again does nothing.
     pub async fn close(&self) -> Result<()> {
-        self.closed.store(true, Ordering::Relaxed);
+        if self.closed.swap(true, Ordering::Relaxed) {
+            // already closed: a second close request would release a handle of another holder
+            return Ok(());
+        }
         self.inner
             .rpc(CloseRequest {
                 doc_id: self.namespace_id,
